@@ -482,3 +482,130 @@ Proof.
   - intros h p s Hin. cbn in Hin. destruct Hin as [H | [H | []]]; inversion H; subst; cbn; lia.
   - intros h p Hin. cbn in Hin. destruct Hin as [H | [H | []]]; inversion H; subst; cbn; lia.
 Qed.
+
+(* ---- built-in predicate atoms that bind variables (strengthened after seeding, round 2,
+   notes/C02.md). :match_pair :match_cons :list:member :match_field :match_entry bind the
+   variables at their output places; a built-in goal is an atom (ast.Atom with a predicate
+   symbol that IsBuiltin(); in the model a PAtom with the built-in's id,
+   Datalog/AggBuiltin.v), so everything above applies to such bodies unchanged:
+   rewrite_shape / rewrite_isolated say the internal relation holds the cols-instances of
+   the body's solutions. What "its own body's solution set" additionally needs is that the
+   columns (getVars, rewrite/rewrite.go:118 = body_cols) lose nothing the transform reads:
+   tmp_columns_keep_atom_vars - every variable of a positive body atom, built-in or not,
+   that is not a wildcard is a column; tmp_row_keeps_transform_inputs - hence the row the
+   transform reads gives every such variable, and every group key made of such variables,
+   the value the body solution gives it (for EVERY substitution, body, wildcard set).
+   getvars_skip_builtin_refuted: the variant of getVars that skips built-in atoms
+   (seeded/C04-5) loses them - the group key H of `p(H,C) :- q(L), :match_cons(L,H,T) |> do
+   fn:group_by(H), let C = fn:count()` has no value in the rows (Go: panic in evalDo) and
+   `fn:sum(E)` over `q(L), :list:member(E,L)` sums nothing.
+   The built-in relations the correspondence check (Run.C02.judge_bi) evaluates bodies
+   against are the documented ones restricted to the constants at hand:
+   match_pair_relation ... match_entry_relation, struct_field_functional. *)
+From MV Require Import Datalog.AggBuiltin Datalog.AggBuiltinProofs.
+
+Theorem tmp_columns_keep_atom_vars :
+  forall (wild : list Z) (b : list premise) (v : Z),
+    In v (atom_vars b) -> ~ In v wild -> In v (body_cols wild b).
+Proof. exact body_cols_keeps_atom_vars. Qed.
+Print Assumptions tmp_columns_keep_atom_vars.
+
+Theorem tmp_row_keeps_transform_inputs :
+  forall (wild : list Z) (b : list premise) (s : subst),
+    (forall v, In v (atom_vars b) -> ~ In v wild ->
+       lookup v (Run.C02.project (body_cols wild b) s) = lookup v s) /\
+    (forall keys, (forall k, In k keys -> In k (atom_vars b) /\ ~ In k wild) ->
+       key_of keys (Run.C02.project (body_cols wild b) s) = key_of keys s).
+Proof.
+  intros wild b s. split.
+  - intros v Hv Hw. apply lookup_project_in. apply body_cols_keeps_atom_vars; assumption.
+  - intros keys H. apply key_of_project. intros k Hk. destruct (H k Hk) as [H1 H2].
+    apply body_cols_keeps_atom_vars; assumption.
+Qed.
+Print Assumptions tmp_row_keeps_transform_inputs.
+
+(* q = 10, p = 11, s = 12; L = 1, H = 2, T = 3, C = 4, E = 5 *)
+Definition gv_lst (l : list Z) : const := list_of_consts (map CNum l).
+Definition gv_facts : list fact := [(10, [gv_lst [1; 2]]); (10, [gv_lst [3]]); (10, [gv_lst [1]])].
+Definition gv_cons_body : list premise :=
+  [PAtom (mkAtom 10 [TVar 1]); PAtom (mkAtom bi_cons_id [TVar 1; TVar 2; TVar 3])].
+Definition gv_member_body : list premise :=
+  [PAtom (mkAtom 10 [TVar 1]); PAtom (mkAtom bi_member_id [TVar 5; TVar 1])].
+(* the transform applied to the rows of the internal relation with the given columns *)
+Definition gv_run (cols : list Z) (b : list premise) (head : atom) (d : dotrans) : option (list fact) :=
+  let G := with_builtins [] gv_facts in
+  match solve G (sel_all G) 0 b [[]] with
+  | Some sols => spec_do head d (Run.C02.dedup_rows (map (Run.C02.project cols) sols))
+  | None => None
+  end.
+
+Example tmp_row_keeps_transform_inputs_example :
+  In 2 (atom_vars gv_cons_body) /\ ~ In 2 ([] : list Z) /\
+  body_cols [] gv_cons_body = [1; 2; 3] /\ body_cols_skip [] gv_cons_body = [1].
+Proof. split; [cbn; tauto|]. split; [intros []|]. split; vm_compute; reflexivity. Qed.
+
+Theorem getvars_skip_builtin_refuted :
+  gv_run (body_cols [] gv_cons_body) gv_cons_body (mkAtom 11 [TVar 2; TVar 4]) (mkDo [2] [DReduce 4 RCount []])
+    = Some [(11, [CNum 1; CNum 2]); (11, [CNum 3; CNum 1])] /\
+  gv_run (body_cols_skip [] gv_cons_body) gv_cons_body (mkAtom 11 [TVar 2; TVar 4]) (mkDo [2] [DReduce 4 RCount []])
+    = None /\
+  gv_run (body_cols [] gv_member_body) gv_member_body (mkAtom 12 [TVar 4]) (mkDo [] [DReduce 4 RSum [TVar 5]])
+    = Some [(12, [CNum 7])] /\
+  gv_run (body_cols_skip [] gv_member_body) gv_member_body (mkAtom 12 [TVar 4]) (mkDo [] [DReduce 4 RSum [TVar 5]])
+    = Some [(12, [CNum 0])].
+Proof. repeat split; vm_compute; reflexivity. Qed.
+Print Assumptions getvars_skip_builtin_refuted.
+
+Theorem match_pair_relation : forall (D : list const) (p a b : const),
+  In (bi_pair_id, [p; a; b]) (bi_facts D) <-> In p D /\ p = CPair a b /\ is_opaque p = false.
+Proof. exact bi_facts_pair_spec. Qed.
+Print Assumptions match_pair_relation.
+
+Theorem match_cons_relation : forall (D : list const) (l h t : const),
+  In (bi_cons_id, [l; h; t]) (bi_facts D) <-> In l D /\ l = CCons h t.
+Proof. exact bi_facts_cons_spec. Qed.
+Print Assumptions match_cons_relation.
+
+Theorem list_member_relation : forall (D : list const) (x l : const),
+  In (bi_member_id, [x; l]) (bi_facts D) <->
+  In l D /\ l <> CNil /\ exists xs, list_elems l = Some xs /\ In x xs.
+Proof. exact bi_facts_member_spec. Qed.
+Print Assumptions list_member_relation.
+
+Theorem match_nil_relation : forall (D : list const) (l : const),
+  In (bi_nil_id, [l]) (bi_facts D) <-> In l D /\ l = CNil.
+Proof. exact bi_facts_nil_spec. Qed.
+Print Assumptions match_nil_relation.
+
+Theorem match_field_relation : forall (D : list const) (s k v : const),
+  In (bi_field_id, [s; k; v]) (bi_facts D) <->
+  In s D /\ exists body es, s = CPair (CName struct_tag) body /\ list_elems body = Some es /\
+                            In (k, v) (first_entries [] es).
+Proof. exact bi_facts_field_spec. Qed.
+Print Assumptions match_field_relation.
+
+Theorem match_entry_relation : forall (D : list const) (m k v : const),
+  In (bi_entry_id, [m; k; v]) (bi_facts D) <->
+  In m D /\ exists body es, m = CPair (CName map_tag) body /\ list_elems body = Some es /\
+                            In (k, v) (first_entries [] es).
+Proof. exact bi_facts_entry_spec. Qed.
+Print Assumptions match_entry_relation.
+
+(* one value per label: the first entry carrying it, and it is an entry of the body *)
+Theorem struct_field_functional : forall (es : list const) (k v1 v2 : const),
+  In (k, v1) (first_entries [] es) -> In (k, v2) (first_entries [] es) ->
+  v1 = v2 /\ In (CPair k v1) es.
+Proof.
+  intros es k v1 v2 H1 H2. split.
+  - exact (first_entries_functional es [] k v1 v2 H1 H2).
+  - exact (proj1 (first_entries_in es [] k v1 H1)).
+Qed.
+Print Assumptions struct_field_functional.
+
+Example builtin_relations_example :
+  let D := domain [] [(10, [CPair (CName [47; 97]) (gv_lst [4; 5])])] in
+  In (bi_pair_id, [CPair (CName [47; 97]) (gv_lst [4; 5]); CName [47; 97]; gv_lst [4; 5]]) (bi_facts D) /\
+  In (bi_cons_id, [gv_lst [4; 5]; CNum 4; gv_lst [5]]) (bi_facts D) /\
+  In (bi_member_id, [CNum 5; gv_lst [4; 5]]) (bi_facts D) /\
+  In (bi_nil_id, [CNil]) (bi_facts D).
+Proof. vm_compute. tauto. Qed.
